@@ -1,4 +1,5 @@
 mod cc;
+mod frames;
 mod keyupdate;
 mod ranges;
 mod reasm;
@@ -10,6 +11,8 @@ fn main() {
     let cmd = args.first().map(|s| s.as_str()).unwrap_or("");
     let rest = &args[1.min(args.len())..];
     let out = match cmd {
+        "frames-replay" => frames::replay(rest),
+        "frames-record" => frames::record(rest),
         "cc-run" => cc::run(rest),
         "reasm-replay" => reasm::replay(rest),
         "reasm-record" => reasm::record(rest),
